@@ -193,6 +193,7 @@ func checkC16(c *Ctx, r *rep.Report) {
 		ruleSchedules(r, p)
 		ruleBitOrigin(r, p, "modm")
 		ruleGlobalWrites(r, p, mem.New())
+		ruleExactWindow4(r, p)
 		ruleMagnitudes(r, p, "curve25519")
 	}
 }
@@ -231,6 +232,7 @@ func checkC19(c *Ctx, r *rep.Report) {
 		ruleBitOrigin(r, p, "modm")
 		ruleVartimePredicates(r, p)
 		ruleExactModm(r, p)
+		ruleExactWindow4(r, p)
 		ruleOutputDefined(r, p)
 		ruleMagnitudes(r, p, "modm")
 	}
@@ -253,5 +255,6 @@ func scalarLayer(c *Ctx, r *rep.Report) {
 		ruleBitOrigin(r, p, "modm")
 		ruleVartimePredicates(r, p)
 		ruleExactModm(r, p)
+		ruleExactWindow4(r, p)
 	}
 }
